@@ -29,9 +29,13 @@ def judge_output(smi, table, accept=None, max_parses=300):
     `accept(mol)` (optional) returns None if the read molecule is the expected
     one, else a difference text (C02)."""
     strict_err = None
+    if table is None:
+        valence = lambda mol, t: None
+    else:
+        valence = valence_problem
     try:
         m = read_smiles(smi)
-        strict_err = valence_problem(m, table)
+        strict_err = valence(m, table)
         kind = "valence"
         if strict_err is None and accept is not None:
             strict_err = accept(m)
@@ -48,7 +52,7 @@ def judge_output(smi, table, accept=None, max_parses=300):
     first = None
     try:
         for m2 in read_segmented(smi, max_parses=max_parses):
-            err = valence_problem(m2, table)
+            err = valence(m2, table)
             if err is None and accept is not None:
                 err = accept(m2)
             if err is None:
